@@ -749,6 +749,133 @@ async fn id_reuse_case(seed: u64) -> Out {
 	out
 }
 
+/// RPC middleware that gives up the inner call of a subscribe method when the harness says so (as a timeout layer would)
+/// and answers the call itself.
+#[derive(Clone)]
+struct DropSubscribe<S> {
+	inner: S,
+	gate: Arc<tokio::sync::Notify>,
+}
+
+impl<S> jsonrpsee_core::middleware::RpcServiceT for DropSubscribe<S>
+where
+	S: jsonrpsee_core::middleware::RpcServiceT<MethodResponse = jsonrpsee_server::MethodResponse> + Send + Sync + Clone + 'static,
+{
+	type MethodResponse = jsonrpsee_server::MethodResponse;
+	type NotificationResponse = S::NotificationResponse;
+	type BatchResponse = S::BatchResponse;
+
+	fn call<'a>(&self, req: jsonrpsee_types::Request<'a>) -> impl std::future::Future<Output = Self::MethodResponse> + Send + 'a {
+		let inner = self.inner.clone();
+		let gate = self.gate.clone();
+		async move {
+			if req.method == "sub" || req.method == "sub_raw" {
+				let id = req.id.clone().into_owned();
+				tokio::select! {
+					rp = inner.call(req) => rp,
+					_ = gate.notified() => jsonrpsee_server::MethodResponse::error(id, jsonrpsee_types::ErrorObject::owned(-32050, "given up by the middleware", None::<()>)),
+				}
+			} else {
+				inner.call(req).await
+			}
+		}
+	}
+
+	fn batch<'a>(&self, b: jsonrpsee_core::middleware::Batch<'a>) -> impl std::future::Future<Output = Self::BatchResponse> + Send + 'a {
+		self.inner.batch(b)
+	}
+
+	fn notification<'a>(&self, n: jsonrpsee_core::middleware::Notification<'a>) -> impl std::future::Future<Output = Self::NotificationResponse> + Send + 'a {
+		self.inner.notification(n)
+	}
+}
+
+/// Directed family: the subscribe call is given up by a middleware while its handler has not decided yet; the handler
+/// then accepts. accept() cannot hand its response to the call any more and fails: nothing of the subscription may be
+/// left - unsubscribe of its id answers false, its slot is free.
+async fn dropped_call_case(seed: u64) -> Out {
+	use jsonrpsee_core::middleware::RpcServiceBuilder;
+	let mut out = Out::default();
+	let mut r = Rng::new(seed);
+	let reg = Registry::default();
+	let ids = CounterIds::default();
+	let gate = Arc::new(tokio::sync::Notify::new());
+	let cap = 1 + r.below(2) as u32;
+	let cfg = ServerConfig::builder().max_subscriptions_per_connection(cap).max_connections(10).set_id_provider(ids.clone()).build();
+	let g2 = gate.clone();
+	let builder = jsonrpsee_server::Server::builder()
+		.set_config(cfg)
+		.set_rpc_middleware(RpcServiceBuilder::new().layer_fn(move |service| DropSubscribe { inner: service, gate: g2.clone() }))
+		.to_service_builder();
+	let (stop_handle, _server_handle) = jsonrpsee_server::stop_channel();
+	let (client, server) = tokio::io::duplex(1 << 20);
+	let svc = builder.build(subctl::module(reg.clone()), stop_handle.clone());
+	tokio::spawn(async move {
+		let _ = jsonrpsee_server::serve_with_graceful_shutdown(server, svc, stop_handle.shutdown()).await;
+	});
+	let Ok(mut ws) = RawWs::handshake(client, "localhost", "/").await else {
+		out.violations.push(("setup-failed/ws-connect".into(), "dropped-call scenario".into()));
+		return out;
+	};
+	macro_rules! bad {
+		($sig:expr, $($arg:tt)*) => { out.violations.push(($sig.to_string(), format!($($arg)*))) };
+	}
+	let raw = r.chance(1, 3);
+	let (sub, unsub) = if raw { ("sub_raw", "unsub_raw") } else { ("sub", "unsub") };
+	let _ = ws.send_text(&json!({"jsonrpc": "2.0", "id": 1, "method": sub, "params": ["d0"]}).to_string()).await;
+	settle().await;
+	let Some(h) = reg.get("d0") else {
+		bad!("refused-with-free-slot/subscribe", "dropped-call scenario: the subscribe call did not reach its handler");
+		return out;
+	};
+	// the middleware gives the call up and answers it itself
+	gate.notify_one();
+	settle().await;
+	settle().await;
+	let how = r.below(3);
+	let rep = match how {
+		0 => h.cmd(Cmd::Accept).await.map(|t| t.reply),
+		1 => h.cmd(Cmd::Reject).await.map(|t| t.reply),
+		_ => h.cmd(Cmd::DropPending).await.map(|t| t.reply),
+	};
+	out.history.push(format!("the subscribe call was given up by the middleware; then the handler decided ({how}): {rep:?}"));
+	if matches!(rep, Some(Reply::Accepted { .. })) {
+		// an accept that succeeds here would be a subscription nobody asked for any more: not judged as such, but then it is active
+		out.history.push("accept() succeeded although the call was gone".into());
+	}
+	settle().await;
+	let _ = h.cmd_nowait(Cmd::Return(Ret::None));
+	settle().await;
+	settle().await;
+	out.admissions += 1;
+	// the id the subscription got (counter provider: 1)
+	let _ = ws.send_text(&json!({"jsonrpc": "2.0", "id": 2, "method": unsub, "params": [1]}).to_string()).await;
+	let frames = ws.drain_until_idle(Duration::from_millis(50)).await;
+	let ans = frames.iter().filter_map(|f| f.json()).find(|v| v["id"] == json!(2));
+	out.ops_checked += 1;
+	match ans.as_ref().map(|v| v["result"].clone()) {
+		Some(Value::Bool(false)) => out.unsub_false += 1,
+		other => bad!("unsubscribe-result-wrong/handler-gone/call-given-up-by-middleware", "after the handler of a given-up subscribe call has finished, unsubscribe of its id answered {other:?}, model false"),
+	}
+	// every slot is free again
+	for k in 0..cap {
+		let tag = format!("fill{k}");
+		let cid = 10 + k;
+		let _ = ws.send_text(&json!({"jsonrpc": "2.0", "id": cid, "method": "sub", "params": [tag]}).to_string()).await;
+		settle().await;
+		match reg.get(&tag) {
+			Some(hh) => {
+				let _ = hh.cmd(Cmd::Accept).await;
+			}
+			None => {
+				bad!("refused-with-free-slot/subscribe", "dropped-call scenario: after the given-up subscription ended, subscribe {k} of {cap} was not admitted");
+				break;
+			}
+		}
+	}
+	out
+}
+
 /// Stress (real threads), a linearizability check on one key: `threads` OS threads call the unsubscribe method for the
 /// same active subscription at the same instant (through `Methods::raw_json_request`, i.e. the very callback the server
 /// runs in one task per message). Against the sequential specification - the first unsubscribe of an active subscription
@@ -1163,7 +1290,13 @@ fn main() {
 		let seed = w["witness"]["seed"].as_u64().unwrap_or(0);
 		// the directed families are replayed from their seed
 		if let Some(sc) = w["witness"]["scenario"].as_str() {
-			let o = if sc.starts_with("a subscription id is issued again") { block_on_virtual(id_reuse_case(seed)) } else { block_on_virtual(blocked_accept_case(seed)) };
+			let o = if sc.starts_with("a subscription id is issued again") {
+				block_on_virtual(id_reuse_case(seed))
+			} else if sc.starts_with("the subscribe call is given up") {
+				block_on_virtual(dropped_call_case(seed))
+			} else {
+				block_on_virtual(blocked_accept_case(seed))
+			};
 			for h in &o.history {
 				println!("  {h}");
 			}
@@ -1214,6 +1347,25 @@ fn main() {
 			}
 			for (sig, d) in o.violations {
 				violations.push(Violation::new(sig, d, json!({"scenario": "accept() blocked by back-pressure while the peer unsubscribes the pending id", "seed": s, "history": o.history})));
+			}
+		}
+	}
+	if !replay {
+		let n = ctx.tier.pick(200u64, 10_000);
+		let seed = ctx.seed;
+		let res = run_parallel((0..n).collect(), |_, i| {
+			let s = Rng::fork(seed, 63_000_000 + i).next_u64();
+			(s, block_on_virtual(dropped_call_case(s)))
+		});
+		for (s, o) in res {
+			ev.eval();
+			ev.count("cases_subscribe_call_given_up_by_a_middleware", 1);
+			ev.count("operations_checked", o.ops_checked as u64);
+			if o.admissions > 0 {
+				ev.nontrivial(&("dropped-call", s));
+			}
+			for (sig, d) in o.violations {
+				violations.push(Violation::new(sig, d, json!({"scenario": "the subscribe call is given up by an rpc middleware before the handler decides", "seed": s, "history": o.history})));
 			}
 		}
 	}
